@@ -68,7 +68,7 @@ func max(a, b int) int {
 	return b
 }
 
-var pfLiterals = []string{"", "x", "a b", "é日", "=", ": ", "100", "\\n", "\\t", "[", "-", "0"}
+var pfLiterals = []string{"\\\\n", "\\\\t", "\\\\\\\\", "C:\\\\dir\\\\", "\\\\%", "", "x", "a b", "é日", "=", ": ", "100", "\\n", "\\t", "[", "-", "0"}
 
 // gen builds a format (as raw literal text) and its argument list.
 func (g *pfGen) gen() (string, []Expr, bool) {
@@ -129,6 +129,12 @@ func c18Random(c *Case) {
 	call := CallE(V("printf"), append([]Expr{S(f)}, args...)...)
 	p := &Program{Items: []any{&Rule{Kind: "BEGIN", Body: Blk(ES(CallE(V("printf"), S("<"))), ES(call), ES(CallE(V("printf"), S(">\\n"))), Pr(S("after")))}}}
 	m2(c, &M2Case{Prog: p, Desc: "printf " + f})
+	if c.Idx%10 == 3 {
+		// the same printf run while a -r selector is evaluated: its output appears like any other
+		sp := &Program{Items: []any{&Rule{Kind: "BEGIN", Body: Blk(Pr(S("begin")))}, &Rule{Kind: "pattern", Body: Blk(Pr(S("root"), V("$")))}}}
+		m2(c, &M2Case{Prog: sp, Files: []InFile{{Name: "in.json", Data: []byte(`{"items": [1, 2]}`)}}, Selectors: []Expr{Idx(Arr(call, Mem(V("$"), "items")), N("1"))}, Desc: "printf inside a -r selector: " + f})
+		c.Count("printf_inside_a_selector")
+	}
 	for k, v := range g.stats {
 		c.CountN("generated:"+k, v)
 	}
